@@ -18,7 +18,8 @@ LEVEL = "exploration"
 
 IMPORTS = ('let lists = import "std/lists.ucg";\nlet tuples = import "std/tuples.ucg";\nlet strings = import "std/strings.ucg";\n'
            'let f = import "std/functional.ucg";\nlet schema = import "std/schema.ucg";\nlet plus1 = func (x) => x + 1;\nlet seven = func () => 7;\n'
-           'let cbase = {xs = [1, 2, 3], n = 0, r = [], o = {xs = [9]}};\n')
+           'let cbase = {xs = [1, 2, 3], n = 0, r = [], o = {xs = [9]}};\n'
+           'let tb3 = {a = 1, b = 2, c = 3};\nlet tb2 = {a = 1, b = 2};\nlet tbn = {a = 1, b = NULL, c = 3};\n')
 
 # python values <-> mini-AST literals / reference values
 
@@ -170,6 +171,11 @@ def calls(thorough):
                 pool.append(st)
     for st in pool:
         yield "strings.parse_int", "strings.ops{str = %s}.parse_int().unwrap()" % S(st), int(_re.match(r"[0-9]+", st).group(0))
+    # long runs of digits: every value of an i64 is exact (a detour through a float is not, from 2^53 on)
+    for st in ["9007199254740992", "9007199254740993", "9007199254740995", "123456789012345678", "999999999999999999", "1000000000000000001",
+               "9223372036854775807", "9223372036854775806", "4611686018427387905", "00000000000000000042"]:
+        yield "strings.parse_int-many-digits", "strings.ops{str = %s}.parse_int().unwrap()" % S(st), int(st)
+        yield "strings.parse_int-many-digits", "strings.ops{str = %s}.parse_int().unwrap()" % S(st + "x"), int(st)
     # no integer at the beginning of the string: the maybe that parse_int returns holds nothing
     for ln in (0, 1, 2):
         for t in itertools.product(alpha, repeat=ln):
@@ -215,6 +221,17 @@ def calls(thorough):
                     yield ("schema.shaped-list-partial", "schema.shaped{val = %s, shape = %s, partial = %s}" % (S(list(t)), S(sh), "true" if partial else "false"),
                            ref_shaped(list(t), sh, partial))
                 yield "schema.shaped-list-partial", "schema.shaped{val = %s, shape = %s}" % (S({"l": list(t)}), S({"l": sh})), ref_shaped({"l": list(t)}, {"l": sh}, True)
+    # tuples that come out of a copy: the fields keep the place they had in the base, added ones follow in the order written
+    ctups = [("tb3{a = 9}", [("a", 9), ("b", 2), ("c", 3)]), ("tb3{b = 9}", [("a", 1), ("b", 9), ("c", 3)]),
+             ("tb3{c = 9}", [("a", 1), ("b", 2), ("c", 9)]), ("tb3{b = 8, a = 9}", [("a", 9), ("b", 8), ("c", 3)]),
+             ("tb2{z = 0, a = 9}", [("a", 9), ("b", 2), ("z", 0)]), 
+             ("tbn{a = NULL}", [("a", None), ("b", None), ("c", 3)]), ("{a = 1, b = 2, a = 3}", [("a", 3), ("b", 2)])]
+    for src, flds in ctups:
+        yield "tuples.fields-of-a-copy", "tuples.fields{tpl = %s}" % src, [n for n, _ in flds]
+        yield "tuples.values-of-a-copy", "tuples.values{tpl = %s}" % src, [v for _, v in flds]
+        yield "tuples.iter-of-a-copy", "tuples.iter{tpl = %s}" % src, [[n, v] for n, v in flds]
+        yield "tuples.strip_nulls-of-a-copy", "tuples.fields{tpl = tuples.strip_nulls{tpl = %s}}" % src, [n for n, v in flds if v is not None]
+        yield "tuples.ops-of-a-copy", "tuples.ops{tpl = %s}.fields()" % src, [n for n, _ in flds]
     # a module-style helper called inside a tuple copy, and `self` used by a later field of the same copy
     yield "helpers-inside-a-copy", "cbase{first = lists.slice{end = 1, list = [7, 8, 9]}, n = lists.len(self.xs)}.n", 3
     yield "helpers-inside-a-copy", "cbase{parts = strings.ops{str = \"a-b\"}.split_on{on = \"-\"}, n = lists.len(self.xs)}.n", 3
@@ -246,7 +263,7 @@ def build_file(srv, lines):
     p = os.path.join(sdir(), "s%d_%d.ucg" % (os.getpid(), next(_cnt)))
     with open(p, "w") as f:
         f.write(IMPORTS + "".join(lines))
-    rs = srv.req({"op": "build", "path": p}, timeout=120)
+    rs = srv.req({"op": "build", "path": p}, timeout=15)
     os.unlink(p)
     return rs
 
@@ -266,13 +283,22 @@ def judge_one(exp, rs, name):
     return "crash", rs
 
 
+HANG_CAP = 3      # calls that do not return within the watchdog's time, per worker chunk, before the rest of the chunk is left out
+
+
 def work(chunk):
-    srv = core.worker_server(timeout=120)
+    # a helper call takes milliseconds; one that is still running after 15 s is reported as a hang
+    srv = core.worker_server(timeout=15)
     hist = {}
     viol = []
     B = 25
+    hangs = 0
+    skipped = 0
     for i in range(0, len(chunk), B):
         batch = chunk[i:i + B]
+        if hangs >= HANG_CAP:
+            skipped += len(batch)
+            continue
         expect_fail = any(e == ("fail",) for _, _, e in batch)
         rs = None
         if not expect_fail:
@@ -283,15 +309,25 @@ def work(chunk):
             # isolate: one file per call
             results = []
             for k, (_, expr, e) in enumerate(batch):
+                if hangs >= HANG_CAP:
+                    results.append(("not-run-after-repeated-hangs", None))
+                    continue
                 r1 = build_file(srv, ["let r0 = %s;\n" % expr])
+                if "ok" not in r1 and "err" not in r1:
+                    hangs += 1          # no verdict from the compiler: it hung, ran out of memory or died
                 results.append(judge_one(e, r1, "r0"))
         for (helper, expr, e), (bad, det) in zip(batch, results):
+            if bad == "not-run-after-repeated-hangs":
+                skipped += 1
+                continue
             k = "%s:%s" % (helper, "as-documented" if bad is None else bad.upper())
             hist[k] = hist.get(k, 0) + 1
             if bad:
                 viol.append((helper, expr, bad, det))
     srv.recycle()
-    return {"evals": len(chunk), "hist": hist, "viol": viol[:300]}
+    if skipped:
+        hist["not-run-after-%d-hangs-in-one-chunk" % HANG_CAP] = skipped
+    return {"evals": len(chunk) - skipped, "hist": hist, "viol": viol[:300], "skipped": skipped}
 
 
 def arg_class(expr):
@@ -322,6 +358,8 @@ def run(ctx):
         for k, v in part["hist"].items():
             ctx.outcome(k, v)
         viol.extend(part["viol"])
+        if part.get("skipped"):
+            ctx.cap("%d calls were not run after %d calls in their chunk did not return within 15 s (each is reported)" % (part["skipped"], HANG_CAP))
     ctx.sample({"call": 'lists.zip{list1 = [1, "a"], list2 = [1]}', "reference": [[1, 1]]})
     ctx.sample({"call": 'strings.ops{str = "a-b"}.split_on{on = "-"}', "reference": ["a", "b"]})
     seen = {}
